@@ -30,6 +30,11 @@ def cases(tier, seed):
                         continue  # refused by PolynomialFeatures: no output column
                     for kind in ("poly", "poly-slow"):
                         yield {"nf": nf, "deg": deg, "io": io, "bias": bias, "kind": kind}
+    # histories on ONE instance: fit(A-config) ; set_params(B-config) ; fit  -> must behave like a fresh B-config object
+    cfgs = [(d, io, bias, kind) for d in (1, 2, 3) for io in (False, True) for bias in (True, False) for kind in ("poly", "poly-slow")]
+    for nf in (2, 3) if tier == "quick" else (1, 2, 3, 4):
+        for a in cfgs:
+            yield {"hist": True, "nf": nf, "first": list(a), "then": [list(b_) for b_ in cfgs if b_ != a]}
     # a wide case: lexicographic feature-name order (x10 < x2) must not change the monomial
     for kind in ("poly", "poly-slow"):
         yield {"nf": 12, "deg": 2, "io": False, "bias": True, "kind": kind}
@@ -50,10 +55,49 @@ def _parse_name(name, feats):
     return tuple(exp)
 
 
+def _run_hist(case):
+    import numpy
+    from sklearn.preprocessing import PolynomialFeatures
+    from mlinsights.mlmodel import ExtendedFeatures
+    nf = case["nf"]
+    viol = []
+    X = numpy.array([PRIMES[:nf], PRIMES[nf:2 * nf], [0.5 * (i + 1) for i in range(nf)]], dtype=numpy.float64)
+    X2 = numpy.array([PRIMES[2:2 + nf + 1]], dtype=numpy.float64)      # another number of columns
+    d, io, bias, kind = case["first"]
+    cnt = 0
+    for (d2, io2, bias2, kind2) in case["then"]:
+        for mid in ("same columns", "other columns first"):
+            cnt += 1
+            ref = PolynomialFeatures(degree=d2, interaction_only=io2, include_bias=bias2).fit(X)
+            desc = "nf=%d fit with %r, set_params to %r (%s), fit again" % (nf, case["first"], [d2, io2, bias2, kind2], mid)
+            try:
+                e = ExtendedFeatures(kind=kind, poly_degree=d, poly_interaction_only=io, poly_include_bias=bias)
+                e.fit(X)
+                e.transform(X)
+                if mid != "same columns":
+                    e.fit(X2)
+                e.set_params(kind=kind2, poly_degree=d2, poly_interaction_only=io2, poly_include_bias=bias2)
+                e.fit(X)
+                got = e.transform(X)
+                names = list(e.get_feature_names_out())
+                exp = ref.transform(X)
+                if e.n_output_features_ != exp.shape[1] or got.shape != exp.shape or not numpy.array_equal(got, exp) or len(names) != exp.shape[1]:
+                    viol.append({"sig": "ExtendedFeatures|refit after set_params differs from a fresh object|%s" % mid,
+                                 "msg": "shape %r vs %r, n_output_features_=%r, %d names %s" % (got.shape, exp.shape, e.n_output_features_, len(names), desc)})
+                    break
+            except Exception as ex:
+                viol.append({"sig": "ExtendedFeatures|refit after set_params raises %s|%s" % (type(ex).__name__, mid), "msg": "%s %s" % (str(ex)[:200], desc)})
+                break
+    return {"viol": viol[:2], "nontrivial": True, "states": cnt, "transitions": cnt * 4, "outcome": ("hist", nf)}
+
+
 def run_case(case):
     import numpy
     from sklearn.preprocessing import PolynomialFeatures
     from mlinsights.mlmodel import ExtendedFeatures
+
+    if case.get("hist"):
+        return _run_hist(case)
 
     nf, deg, io, bias, kind = case["nf"], case["deg"], case["io"], case["bias"], case["kind"]
     viol = []
